@@ -160,6 +160,16 @@ int run_case_wrapped(const uint8_t *data, size_t size, bool verbose,
       ctx.log << "REJECTED (CRAB_ERROR): " << e.what() << "\n";
   } catch (const step_budget_exceeded &s) {
     r.trunc("step_budget_unhandled");
+  } catch (const std::exception &e) {
+    // an exception that is neither an oracle failure nor a clean rejection:
+    // reported as a harness/crash failure (the supervisor treats property
+    // "EXCEPTION" like a crash, never silently)
+    rc = 1;
+    r.last_fail_prop = "EXCEPTION";
+    r.last_fail_cls = std::string("exception_") + e.what();
+    r.last_fail_msg = e.what();
+    if (verbose)
+      ctx.log << "UNEXPECTED EXCEPTION: " << e.what() << "\n";
   }
   if (rc == 0 && ctx.nontrivial && !r.frozen) {
     r.nontrivial++;
